@@ -18,6 +18,9 @@ pub enum Pre {
     OutOfTurn,
     /// genuine message, payload buffer one byte too small (reader only)
     SmallPayloadBuf,
+    /// the PSK this message needs (slot given) has not been supplied: the call fails with MissingPsk after the
+    /// tokens before the psk token were processed; then `set_psk`, then the valid call
+    MissingPsk(usize),
 }
 
 fn indicators(hs: &snow::HandshakeState) -> (bool, bool, bool) {
@@ -36,7 +39,14 @@ pub fn step_write_pre<const HL: usize, const PL: usize, const DL: usize, const P
     rm_advance::<Toy<HL, PL, DL>>(&mut pair, k);
     let mut rmw = if k % 2 == 0 { pair.i } else { pair.r };
 
-    let mut hs = snow_from_rm_a::<HL, PL, DL>(&rmw, NAME, false);
+    let mut hs = match pre {
+        Pre::MissingPsk(_) => {
+            let mut lacking = rmw;
+            lacking.psk_set = 0;
+            snow_from_rm_a::<HL, PL, DL>(&lacking, NAME, false)
+        },
+        _ => snow_from_rm_a::<HL, PL, DL>(&rmw, NAME, false),
+    };
     let e: [u8; 8] = kani::any();
     set_rng_slot(0, &e);
     let payload: [u8; PLEN] = kani::any();
@@ -48,6 +58,7 @@ pub fn step_write_pre<const HL: usize, const PL: usize, const DL: usize, const P
         let other: [u8; PLEN] = kani::any();
         let r = match pre {
             Pre::SmallBuf(cap) => hs.write_message(&other, &mut buf_s[..cap]),
+            Pre::MissingPsk(_) => hs.write_message(&other, &mut buf_s),
             _ => {
                 let junk: [u8; 6] = kani::any();
                 let mut o = [0u8; 8];
@@ -55,6 +66,10 @@ pub fn step_write_pre<const HL: usize, const PL: usize, const DL: usize, const P
             },
         };
         assert!(r.is_err(), "C07 harness: the preliminary call was expected to fail");
+        if let Pre::MissingPsk(slot) = pre {
+            assert!(r == Err(snow::Error::State(snow::error::StateProblem::MissingPsk)), "C12: a PSK that was not supplied must be reported as MissingPsk at the message that needs it");
+            assert!(hs.set_psk(slot, &rmw.psks[slot]).is_ok(), "C07 harness: set_psk");
+        }
         if pre == Pre::OutOfTurn {
             assert!(r == Err(snow::Error::State(snow::error::StateProblem::NotTurnToRead)), "C11: out-of-turn read must report NotTurnToRead");
         }
@@ -110,7 +125,14 @@ pub fn step_read_pre<const HL: usize, const PL: usize, const DL: usize, const PL
     rm_advance::<Toy<HL, PL, DL>>(&mut pair, k);
     let (mut rmw, mut rmr) = if k % 2 == 0 { (pair.i, pair.r) } else { (pair.r, pair.i) };
 
-    let mut hs = snow_from_rm_a::<HL, PL, DL>(&rmr, NAME, false);
+    let mut hs = match pre {
+        Pre::MissingPsk(_) => {
+            let mut lacking = rmr;
+            lacking.psk_set = 0;
+            snow_from_rm_a::<HL, PL, DL>(&lacking, NAME, false)
+        },
+        _ => snow_from_rm_a::<HL, PL, DL>(&rmr, NAME, false),
+    };
     let e: [u8; 8] = kani::any();
     let payload: [u8; PLEN] = kani::any();
     let mut msg = [0u8; MSGBUF];
@@ -123,6 +145,7 @@ pub fn step_read_pre<const HL: usize, const PL: usize, const DL: usize, const PL
         let hh0 = hs.get_handshake_hash().to_vec();
         let r = match pre {
             Pre::SmallPayloadBuf => hs.read_message(&msg[..n], &mut out_s[..PLEN - 1]),
+            Pre::MissingPsk(_) => hs.read_message(&msg[..n], &mut out_s),
             _ => {
                 let junk: [u8; 2] = kani::any();
                 let mut b = [0u8; MSGBUF];
@@ -132,6 +155,10 @@ pub fn step_read_pre<const HL: usize, const PL: usize, const DL: usize, const PL
         assert!(r.is_err(), "C07 harness: the preliminary call was expected to fail");
         if pre == Pre::OutOfTurn {
             assert!(r == Err(snow::Error::State(snow::error::StateProblem::NotTurnToWrite)), "C11: out-of-turn write must report NotTurnToWrite");
+        }
+        if let Pre::MissingPsk(slot) = pre {
+            assert!(r == Err(snow::Error::State(snow::error::StateProblem::MissingPsk)), "C12: a PSK that was not supplied must be reported as MissingPsk at the message that needs it");
+            assert!(hs.set_psk(slot, &rmr.psks[slot]).is_ok(), "C07 harness: set_psk");
         }
         assert!(indicators(&hs) == ind0, "C07: a failed call changed turn / finished indicators");
         assert!(hs.get_handshake_hash() == &hh0[..], "C07: a failed call changed the handshake hash");
@@ -645,3 +672,204 @@ step_harness!(c01_t_step_xxpsk0psk3_w2, step_write, 8, 4, 4, 1, Pat::XX, 9, 2, 3
 step_harness!(c01_t_step_nnpsk0psk1psk2_r1, step_read, 8, 4, 4, 1, Pat::NN, 7, 1, 34);
 step_harness!(c01_t_step_xx_w1_hl32, step_write, 32, 4, 4, 1, Pat::XX, 0, 1, 34);
 step_harness!(c01_t_step_xx_r2_hl64_p256shape, step_read, 64, 5, 3, 1, Pat::XX, 0, 2, 66);
+
+// ------------------------------------------------------------------------------------ builder-level init
+
+/// The real `Builder` (keys, prologue longer than a hash block, PSK) over the toy resolver: the handshake state it
+/// produces must be the specification's Initialize for exactly the configured name / prologue / keys.
+#[kani::proof]
+#[kani::unwind(140)]
+pub fn c01_q_init_via_builder_long_prologue() {
+    const PRO: usize = 131;
+    let mut pro = [0x5Au8; PRO];
+    pro[0] = kani::any();
+    pro[63] = kani::any();
+    pro[64] = kani::any();
+    pro[127] = kani::any();
+    pro[128] = kani::any();
+    pro[130] = kani::any();
+    let si: [u8; 4] = kani::any();
+    let rs_pub: [u8; 4] = kani::any();
+    let initiator: bool = kani::any();
+    let pat = Pat::KK;
+    let rm = HsOps::<Toy<8, 4, 4>>::initialize(pat, 0, initiator, NAME.as_bytes(), &pro, Some(&si), Some(&rs_pub), [[0u8; 32]; 10], 0);
+    let b = snow::Builder::with_resolver(mk_params(NAME, pat, 0), Box::new(ToyResolver))
+        .local_private_key(&si)
+        .unwrap()
+        .remote_public_key(&rs_pub)
+        .unwrap()
+        .prologue(&pro)
+        .unwrap();
+    let r = if initiator { b.build_initiator() } else { b.build_responder() };
+    kani::cover!(r.is_ok(), "C01 builder init reachable");
+    assert!(r.is_ok(), "C01: Builder refused a complete configuration");
+    if let Ok(hs) = r {
+        let snap = verif::snapshot(&hs);
+        assert!(diff_state::<Toy<8, 4, 4>>(&snap, EP_A, &rm) == 0, "C01: the state built by Builder differs from the specification's Initialize (name, prologue or keys not passed on unaltered)");
+        let hh = hs.get_handshake_hash();
+        assert_prefix_eq!(hh, rm.sym.h, 8, 8, "C01: handshake hash after Builder::build differs from the specification");
+        core::mem::forget(hs);
+    }
+}
+
+// ------------------------------------------------------------------------------------------ token table
+
+fn tok_code(t: Tok) -> u8 {
+    match t {
+        Tok::E => 0,
+        Tok::S => 1,
+        Tok::EE => 2,
+        Tok::ES => 3,
+        Tok::SE => 4,
+        Tok::SS => 5,
+    }
+}
+
+/// snow's whole pattern table (pre-messages and message tokens of all 38 patterns, without modifier and with each
+/// single psk0..psk5) against the reference model's transcription of the specification. The space is finite
+/// (38 x 7) and is enumerated completely inside the queries (6 patterns per harness); a symbolic pattern index
+/// makes `HandshakeTokens::try_from` build 38 heap tables at once and does not finish.
+pub fn token_table_one(i: usize, with_psk: bool) {
+    use snow::params::*;
+    {
+        {
+            let pat = ALL_PATS[i];
+            let d = pat.def();
+            let n = d.msgs.len();
+            // without modifier (quick); with psk0, psk(n) and the first invalid psk(n+1) (thorough)
+            let mut pi_ = if with_psk { 0 } else { 3 };
+            while pi_ < 4 {
+                let psk: u8 = match pi_ {
+                    0 => 0,
+                    1 => n as u8,
+                    2 => n as u8 + 1,
+                    _ => 255,
+                };
+                let mods = if psk == 255 { Vec::new() } else { vec![HandshakeModifier::Psk(psk)] };
+                let hc = HandshakeChoice { pattern: SUPPORTED_HANDSHAKE_PATTERNS[i], modifiers: HandshakeModifierList { list: mods } };
+                let t = verif::token_table(&hc);
+                let valid = psk == 255 || (psk as usize) <= n;
+                assert!(t.is_some() == valid, "C12: a psk modifier is accepted iff its index is at most the number of messages");
+                if let Some((pi, pr, msgs)) = t {
+                    assert!(pi.len() == (d.pre_i as usize) && pr.len() == (d.pre_r as usize), "C01: pre-message pattern differs from the specification");
+                    assert!(pi.iter().all(|x| *x == 1) && pr.iter().all(|x| *x == 1), "C01: pre-message token is not s");
+                    assert!(msgs.len() == n, "C01: number of messages differs from the specification");
+                    let mut m = 0;
+                    while m < 4 {
+                        if m < n {
+                            let base = d.msgs[m];
+                            let front = psk == 0 && m == 0;
+                            let back = psk != 255 && psk != 0 && (psk as usize) == m + 1;
+                            let want_len = base.len() + (front as usize) + (back as usize);
+                            assert!(msgs[m].len() == want_len, "C01: number of tokens in a message differs from the specification");
+                            let mut k = 0;
+                            while k < 7 {
+                                if k < want_len && k < msgs[m].len() {
+                                    let want = if front && k == 0 {
+                                        16
+                                    } else if back && k == want_len - 1 {
+                                        16 + psk
+                                    } else {
+                                        tok_code(base[k - (front as usize)])
+                                    };
+                                    assert!(msgs[m][k] == want, "C01: message token differs from the specification's pattern");
+                                }
+                                k += 1;
+                            }
+                        }
+                        m += 1;
+                    }
+                    core::mem::forget(msgs);
+                }
+                pi_ += 1;
+            }
+        }
+    }
+    kani::cover!(true, "C01 token table reached");
+}
+
+macro_rules! table_harness {
+    ($name:ident, $i:expr, $psk:expr) => {
+        #[kani::proof]
+        #[kani::unwind(12)]
+        pub fn $name() {
+            token_table_one($i, $psk);
+        }
+    };
+}
+table_harness!(c01_q_tokens_n, 0, false);
+table_harness!(c01_t_tokens_n_psk, 0, true);
+table_harness!(c01_q_tokens_x, 1, false);
+table_harness!(c01_t_tokens_x_psk, 1, true);
+table_harness!(c01_q_tokens_k, 2, false);
+table_harness!(c01_t_tokens_k_psk, 2, true);
+table_harness!(c01_q_tokens_nn, 3, false);
+table_harness!(c01_t_tokens_nn_psk, 3, true);
+table_harness!(c01_q_tokens_nk, 4, false);
+table_harness!(c01_t_tokens_nk_psk, 4, true);
+table_harness!(c01_q_tokens_nx, 5, false);
+table_harness!(c01_t_tokens_nx_psk, 5, true);
+table_harness!(c01_q_tokens_xn, 6, false);
+table_harness!(c01_t_tokens_xn_psk, 6, true);
+table_harness!(c01_q_tokens_xk, 7, false);
+table_harness!(c01_t_tokens_xk_psk, 7, true);
+table_harness!(c01_q_tokens_xx, 8, false);
+table_harness!(c01_t_tokens_xx_psk, 8, true);
+table_harness!(c01_q_tokens_kn, 9, false);
+table_harness!(c01_t_tokens_kn_psk, 9, true);
+table_harness!(c01_q_tokens_kk, 10, false);
+table_harness!(c01_t_tokens_kk_psk, 10, true);
+table_harness!(c01_q_tokens_kx, 11, false);
+table_harness!(c01_t_tokens_kx_psk, 11, true);
+table_harness!(c01_q_tokens_in, 12, false);
+table_harness!(c01_t_tokens_in_psk, 12, true);
+table_harness!(c01_q_tokens_ik, 13, false);
+table_harness!(c01_t_tokens_ik_psk, 13, true);
+table_harness!(c01_q_tokens_ix, 14, false);
+table_harness!(c01_t_tokens_ix_psk, 14, true);
+table_harness!(c01_q_tokens_nk1, 15, false);
+table_harness!(c01_t_tokens_nk1_psk, 15, true);
+table_harness!(c01_q_tokens_nx1, 16, false);
+table_harness!(c01_t_tokens_nx1_psk, 16, true);
+table_harness!(c01_q_tokens_x1n, 17, false);
+table_harness!(c01_t_tokens_x1n_psk, 17, true);
+table_harness!(c01_q_tokens_x1k, 18, false);
+table_harness!(c01_t_tokens_x1k_psk, 18, true);
+table_harness!(c01_q_tokens_xk1, 19, false);
+table_harness!(c01_t_tokens_xk1_psk, 19, true);
+table_harness!(c01_q_tokens_x1k1, 20, false);
+table_harness!(c01_t_tokens_x1k1_psk, 20, true);
+table_harness!(c01_q_tokens_x1x, 21, false);
+table_harness!(c01_t_tokens_x1x_psk, 21, true);
+table_harness!(c01_q_tokens_xx1, 22, false);
+table_harness!(c01_t_tokens_xx1_psk, 22, true);
+table_harness!(c01_q_tokens_x1x1, 23, false);
+table_harness!(c01_t_tokens_x1x1_psk, 23, true);
+table_harness!(c01_q_tokens_k1n, 24, false);
+table_harness!(c01_t_tokens_k1n_psk, 24, true);
+table_harness!(c01_q_tokens_k1k, 25, false);
+table_harness!(c01_t_tokens_k1k_psk, 25, true);
+table_harness!(c01_q_tokens_kk1, 26, false);
+table_harness!(c01_t_tokens_kk1_psk, 26, true);
+table_harness!(c01_q_tokens_k1k1, 27, false);
+table_harness!(c01_t_tokens_k1k1_psk, 27, true);
+table_harness!(c01_q_tokens_k1x, 28, false);
+table_harness!(c01_t_tokens_k1x_psk, 28, true);
+table_harness!(c01_q_tokens_kx1, 29, false);
+table_harness!(c01_t_tokens_kx1_psk, 29, true);
+table_harness!(c01_q_tokens_k1x1, 30, false);
+table_harness!(c01_t_tokens_k1x1_psk, 30, true);
+table_harness!(c01_q_tokens_i1n, 31, false);
+table_harness!(c01_t_tokens_i1n_psk, 31, true);
+table_harness!(c01_q_tokens_i1k, 32, false);
+table_harness!(c01_t_tokens_i1k_psk, 32, true);
+table_harness!(c01_q_tokens_ik1, 33, false);
+table_harness!(c01_t_tokens_ik1_psk, 33, true);
+table_harness!(c01_q_tokens_i1k1, 34, false);
+table_harness!(c01_t_tokens_i1k1_psk, 34, true);
+table_harness!(c01_q_tokens_i1x, 35, false);
+table_harness!(c01_t_tokens_i1x_psk, 35, true);
+table_harness!(c01_q_tokens_ix1, 36, false);
+table_harness!(c01_t_tokens_ix1_psk, 36, true);
+table_harness!(c01_q_tokens_i1x1, 37, false);
+table_harness!(c01_t_tokens_i1x1_psk, 37, true);
